@@ -269,8 +269,7 @@ func PartitionMap[K comparable, V any](mapSlice []map[K]V, fn func(map[K]V) bool
 	var result = [2][]map[K]V{}
 
 	for _, m := range mapSlice {
-		for k, v := range m {
-			m[k] = v
+		for range m {
 			if fn(m) {
 				result[0] = append(result[0], m)
 				break
